@@ -311,6 +311,21 @@ def _(I): return I.Spure().expect(I.S2())
 def _(I): return (I.S().entropy(I.q), I.S().entropy([]), I.S().entropy(list(range(I.N))))
 @op('c/get_prob')
 def _(I): return I.Spure().get_prob(I.arr(I.d['bits']))
+@op('c/query-sequence-pure')
+def _(I):
+    # one receiver and one set of argument objects through every read-only query, twice, in an order drawn from the case:
+    # results, the receiver and the arguments afterwards must agree between the packages (a query that writes into shared storage shows up here)
+    S, O, Obs, Y, bits = I.Spure(), I.S2(), I.Obs(), I.Y1(), I.arr(I.d['bits'])
+    qs = [lambda: S.expect(O), lambda: S.get_prob(bits), lambda: S.expect(Obs), lambda: S.expect(Y), lambda: S.entropy(I.q), lambda: S.expect(I.P()),
+          lambda: S.to_map(), lambda: S.density_matrix]
+    order = [(I.d['i0'] + 3 * j) % len(qs) for j in range(len(qs))] * 2
+    return [qs[j]() for j in order] + [S, O, Obs, Y, bits]
+@op('c/query-sequence-mixed')
+def _(I):
+    S, Obs, Y = I.S(), I.Obs(), I.Y1()
+    qs = [lambda: S.expect(Obs), lambda: S.expect(Y), lambda: S.entropy(I.q), lambda: S.expect(I.P()), lambda: S.to_map(), lambda: S.density_matrix, lambda: S.copy()]
+    order = [(I.d['i0'] + 3 * j) % len(qs) for j in range(len(qs))] * 2
+    return [qs[j]() for j in order] + [S, Obs, Y]
 @op('c/density_matrix')
 def _(I): return (I.S().density_matrix, -I.S(), 2 * I.S())
 @op('c/to_qutip')
